@@ -102,6 +102,52 @@ theorem timeout_is_private (tn : Nat → Name) (ls : List Lbl) (s s1 s2 : S) (h 
   refine ⟨hpc2, hI2.wait i nf hpc2 (by rw [hcl2, hcl1]; exact ho)⟩
 
 
+/-- **no lost wake-up over whole executions** (the property at full strength): take any execution in which lookup `i`
+has started, is unfinished and its deadline has not fired; an accepted update then carries its name. Whatever happens
+afterwards — other lookups of the same or other names arriving, timing out, being cancelled and cleaning up, further
+updates, evictions of other names — as long as `i`'s own deadline does not fire and its name is not removed again: in
+every later state the lookup is finished **with the value**, or has an enabled step of its own that is not its deadline
+(registration returns the value; the wake-up is enabled because its notifier is closed; the re-read returns the value).
+It is never parked on an open notifier and never on the timeout path. -/
+theorem no_lost_wakeup_trace (tn : Nat → Name) (i : Nat) (pre post : List Lbl) (full : Bool)
+    (items : List (Name × Val)) (s1 s2 s : S)
+    (h1 : runL V tn init pre = some s1)
+    (hstarted : s1.pc i ≠ .start) (hnt : ∀ nf, s1.pc i ≠ .timedOut nf) (hnd : ∀ r, s1.pc i ≠ .done r)
+    (hmem : tn i ∈ items.map Prod.fst) (h2 : cstep V tn s1 (.deliver full items) = some s2)
+    (hpost : post.all (harmless tn i) = true) (h3 : runL V tn s2 post = some s) :
+    (∀ r, s.pc i = .done r → ∃ v, r = .val v) ∧
+    (∀ nf, s.pc i = .waiting nf → ∃ s', cstep V tn s (.getWake i) = some s' ∧ s'.pc i = .woken) ∧
+    (s.pc i = .missed → ∃ s' v, cstep V tn s (.getRegister i) = some s' ∧ s'.pc i = .done (.val v)) ∧
+    (s.pc i = .woken → ∃ s' v, cstep V tn s (.getReread i) = some s' ∧ s'.pc i = .done (.val v)) ∧
+    (∀ nf, s.pc i ≠ .timedOut nf) ∧ s.pc i ≠ .start := by
+  rw [facts_get] at h1 h2 h3
+  have hI := inv_reach tn pre init s1 (inv_init tn) h1
+  have hG := supplied_run tn i post s2 s (deliver_supplies tn i s1 s2 full items hI hstarted hnt hnd hmem h2) hpost h3
+  obtain ⟨v, hv⟩ := Option.isSome_iff_exists.mp hG.cached
+  refine ⟨?_, ?_, ?_, ?_, hG.noTimeout, hG.notStart⟩
+  · intro r hr
+    cases r with
+    | val w => exact ⟨w, rfl⟩
+    | err => exact absurd hr hG.noErr
+    | nilnil => exact absurd hr hG.noNil
+  · intro nf hw
+    simp only [cstep, hw, hG.woken nf hw, if_true]
+    exact ⟨_, rfl, by simp [setPc]⟩
+  · intro hm
+    obtain ⟨s', h'⟩ := update_before_registration tn s i v hm hv
+    exact ⟨s', v, h'⟩
+  · intro hw
+    obtain ⟨s', h'⟩ := woken_returns_current tn s i v hw hv
+    exact ⟨s', v, h'⟩
+
+/-- non-vacuity of the trace theorem: three lookups of one name, one of them times out and cleans up after the
+delivery, a later full update keeps the name, another name is evicted: the supplied lookup ends with the value -/
+example : (runL V (fun j => if j = 3 then "d" else "c") init
+      [.getStart 0, .getStart 1, .getRegister 0, .getRegister 1, .getStart 3, .deliver true [("c", "v"), ("d", "w")],
+       .getStart 2, .getDeadline 1, .getCleanup 1, .deliver true [("c", "v2"), ("d", "w")], .evict "d",
+       .getWake 0, .getReread 0]).map (fun s => (s.pc 0, s.pc 1, s.pc 2))
+    = some (.done (.val "v2"), .done .err, .done (.val "v")) := by decide
+
 /-! ### the same guarantee against the real response handling (`Model/Sys.lean`)
 
 In the composed system a delivery is the third lock section of a response handler (`UpdateResource`), applied to
